@@ -200,7 +200,10 @@ def vol_overlap(pane, ast, x) -> bool:
     for vol in find(x):
         if not vol._is_val:
             try:
-                pane.from_data(pane.into_data(vol, grammar.build(leaf)), params[leaf])
+                # the LIST form as the statement defines it - each element serialised as T, in a list - computed here, not by the
+                # converter under test; the ambiguity is real only if T itself takes that list as one value
+                as_list = [pane.into_data(e, params[leaf]) for e in vol._inner]
+                pane.from_data(as_list, params[leaf])
                 return True
             except Exception:  # noqa
                 pass
@@ -225,6 +228,38 @@ def ext_natives(ast):
     if head == 'tuple' and len(ast) == 3 and ast[1] == 'int' and isinstance(ast[2], str):
         return [(1, x) for x in _vol_natives(ast[2])]
     return []
+
+
+def field_converter_arguments(pane, res):
+    """A dataclass whose fields carry their own converter= : the constructor still accepts already-typed arguments unchanged."""
+    import typing
+    import fractions
+    from pane.convert import make_converter
+    Inner = grammar.pin(type('FcInner', (pane.PaneBase,), {'__annotations__': {'n': int}, '__module__': 'mc.generated'}))
+    ns = {'__annotations__': {'tags': typing.Set[int], 'inner': Inner, 'ratio': fractions.Fraction, 'names': typing.Tuple[str, ...]},
+          'tags': pane.field(converter=make_converter(typing.Set[int])), 'inner': pane.field(converter=make_converter(Inner)),
+          'ratio': pane.field(converter=make_converter(fractions.Fraction)), 'names': pane.field(converter=make_converter(typing.Tuple[str, ...])),
+          '__module__': 'mc.generated'}
+    H = grammar.pin(type('FcHolder', (pane.PaneBase,), ns))
+    typed = dict(tags={1, 2, 3}, inner=Inner.make_unchecked(n=5), ratio=fractions.Fraction(1, 3), names=('a', 'b'))
+    cell = {'ast': 'field_converter_arguments', 'sp': [0, 0], 'vi': -2, 'v': 'None'}
+    res['states'] += 1
+    res['evals'] += 2
+    res['validated'] += 2
+    res['transitions'] += 3
+    res['nontrivial'].add('field_converter_arguments')
+    try:
+        h = H(**typed)
+        bad = next((k for k, v in typed.items() if not values.typed_eq(getattr(h, k), v) and getattr(h, k) != v), None)
+        problem = f"field {bad} is {getattr(h, bad)!r}, the argument was {typed[bad]!r}" if bad else None
+        if not problem:
+            h2 = pane.convert(h, H)
+            problem = None if h2 == h else f"convert(instance, its class) returned {h2!r}"
+    except Exception as e:  # noqa
+        problem = f"raised {type(e).__name__}: {core.sstr(e, 120)}"
+    if problem:
+        core.add_violation(res, {'kind': 'constructor_refuses_typed_argument', 'root': 'field_converter', 'exc': problem.split(':')[0][:20], 'leaves': []},
+                           f"a dataclass whose fields have converter=...: building it from already-typed arguments {core.srepr(typed, 100)}: {problem}", cell, 5)
 
 
 def _sig(kind, ast, root, ov):
@@ -253,8 +288,15 @@ def same(a, b):
 
 
 def run_shard(shard, tier):
-    return e1.run_shard(shard, tier, judge, value_fn=members_only, expr_fn=expressions)
+    res = e1.run_shard(shard, tier, judge, value_fn=members_only, expr_fn=expressions)
+    if shard.get('i') == 0:
+        field_converter_arguments(core.import_pane(), res)
+    return res
 
 
 def replay(cell):
+    if cell.get('ast') == 'field_converter_arguments':
+        res = core.new_result()
+        field_converter_arguments(core.import_pane(), res)
+        return [v for lst in res['violations'].values() for v in lst]
     return e1.replay(cell, judge, value_fn=members_only)
